@@ -24,6 +24,7 @@ P = {'id': 'C07',
               'five_link_write_safe',
               'five_offset_wrap_refuted',
               'five_small_align_refuted',
+              'five_tl_offset_alias_refuted',
               'threadlocal_inv',
               'threadlocal_refuses_over_capacity',
               'threadlocal_reissue_fits',
